@@ -137,6 +137,25 @@ def run_highdeg(ctx):
         run_case(ctx, ser(dict(kind="points", U=U, W=None, points=rand_points(rng, len(nodes), 1), nodes=nodes)))
 
 
+def run_manyspans(ctx):
+    """fit_function with its own default nodes on curves with many spans, one of them isolated between two knots of multiplicity
+    degree+1 (that span carries degree+1 unknowns of its own whatever the average per span is) — functions of the curve's own space
+    must be reproduced"""
+    rng = ctx["rng"]
+    for i in range(budget(ctx, 6, 60)):
+        p_ = rng.choice([2, 3, 3, 4])
+        nsimple = rng.randint(4, 7)
+        U = [F(0)] * (p_ + 1) + [F(1)] * (p_ + 1) + [F(1 + j) for j in range(1, nsimple)] + [F(nsimple + 1)] * (p_ + 1)
+        if i % 3 == 2:
+            # the isolated span in the middle
+            k_ = rng.randint(1, nsimple - 2)
+            U = [F(0)] * (p_ + 1) + [F(j) for j in range(1, k_)] + [F(k_)] * (p_ + 1) + [F(k_ + 1)] * (p_ + 1) \
+                + [F(j) for j in range(k_ + 2, nsimple + 1)] + [F(nsimple + 1)] * (p_ + 1)
+        n = kv_info(U)[1]
+        ctx["rec"].count("family", "many-spans-isolated-span")
+        run_case(ctx, ser(dict(kind="function", U=U, W=None, src=rand_points(rng, n, 1, ints=True))))
+
+
 def run_linalg(ctx):
     """unit ties of heavy.Linalg (exact Gauss-Jordan / least-squares operator) with the model the normal-equation theorems use"""
     rng, rec, drv = ctx["rng"], ctx["rec"], ctx["drv"]
@@ -159,6 +178,7 @@ def run(ctx):
     rng = ctx["rng"]
     run_history(ctx)
     run_highdeg(ctx)
+    run_manyspans(ctx)
     run_linalg(ctx)
     for i in range(budget(ctx, 90, 1200)):
         U = rand_kv(rng, pmax=3, nintmax=3)
